@@ -154,9 +154,11 @@ FLOORS = {
         "ownership:table_columns_0_1": 1, "ownership:table_fortran_ordered_table": 1,
         "eval:distance_mask.grid_input_untouched": 430, "class:grid_dask_backed_all_variables": 82,
         "class:grid_dask_backed_some_variables_only": 18, "class:grid_dask_chunks_several_chunks": 83,
-        "class:grid_dask_chunks_single_chunk": 19, "grid_lazy:chunk()": 19,
-        "grid_lazy:chunk_northing": 17, "grid_lazy:chunk_easting": 20, "grid_lazy:chunk_both_dims": 20,
-        "grid_lazy:one_variable_chunked_others_in_memory": 18,
+        "class:grid_dask_chunks_single_chunk": 19, "grid_lazy:chunk()": 19, "grid_lazy:chunk_northing": 17,
+        "grid_lazy:chunk_easting": 20, "grid_lazy:chunk_both_dims": 20, "grid_lazy:one_variable_chunked_others_in_memory": 18,
+        "defaulted_argument:KNeighbors.__init__.k": 82, "defaulted_argument:KNeighbors.__init__.reduction": 154,
+        "defaulted_argument:distance_mask.projection": 47, "defaulted_argument:median_distance.k_nearest": 56,
+        "eval:KNeighbors.constructor_defaults": 948,
     },
     "thorough": {
         "eval:KNeighbors.predict": 25500, "eval:median_distance": 5400, "eval:distance_mask.array": 7650,
@@ -234,9 +236,11 @@ FLOORS = {
         "ownership:coordinates_are_views_of_one_table": 135, "ownership:table_columns_0_1": 15,
         "ownership:table_fortran_ordered_table": 15, "eval:distance_mask.grid_input_untouched": 6450,
         "class:grid_dask_backed_all_variables": 1230, "class:grid_dask_backed_some_variables_only": 270,
-        "class:grid_dask_chunks_several_chunks": 1245, "class:grid_dask_chunks_single_chunk": 285,
-        "grid_lazy:chunk()": 285, "grid_lazy:chunk_northing": 255,
-        "grid_lazy:chunk_easting": 300, "grid_lazy:chunk_both_dims": 300, "grid_lazy:one_variable_chunked_others_in_memory": 270,
+        "class:grid_dask_chunks_several_chunks": 1245, "class:grid_dask_chunks_single_chunk": 285, "grid_lazy:chunk()": 285,
+        "grid_lazy:chunk_northing": 255, "grid_lazy:chunk_easting": 300, "grid_lazy:chunk_both_dims": 300,
+        "grid_lazy:one_variable_chunked_others_in_memory": 270, "defaulted_argument:KNeighbors.__init__.k": 1230,
+        "defaulted_argument:KNeighbors.__init__.reduction": 2310, "defaulted_argument:distance_mask.projection": 705,
+        "defaulted_argument:median_distance.k_nearest": 840, "eval:KNeighbors.constructor_defaults": 14220,
     },
 }
 JOBS = {"quick": 1, "thorough": 8}
@@ -1138,10 +1142,25 @@ def install(tap, run):
     tap.method(vchain.Chain, "fit", subclasses=False)
     tap.method(vchain.Chain, "predict", subclasses=False)
     tap.function(vproj, "project_grid")
-    tap.method(vneigh.KNeighbors, "fit", post=post_fit)
+    def post_init(ev):
+        """KNeighbors(k=1, reduction=np.mean): after construction the parameters are the given ones or the DOCUMENTED defaults."""
+        if ev.exc is not None:
+            return
+        est = ev.args["self"]
+        run.evaluated("KNeighbors.constructor_defaults")
+        have = (getattr(est, "k", None), getattr(est, "reduction", None))
+        if as_integer(have[0]) != as_integer(ev.args["k"]) or have[1] is not ev.args["reduction"]:
+            run.violation("KNeighbors.constructor_defaults",
+                          "KNeighbors constructed with k=%r, reduction=%s (documented defaults for what was left out) has k=%r, reduction=%s"
+                          % (ev.args["k"], getattr(ev.args["reduction"], "__name__", ev.args["reduction"]), have[0], getattr(have[1], "__name__", have[1])),
+                          {"k": repr(have[0]), "reduction": repr(have[1])}, key="knn:constructor_defaults")
+
+    # defaults as documented in the docstrings: an argument the caller leaves out is judged by these, not by the tree's signature
+    tap.method(vneigh.KNeighbors, "__init__", post=post_init, subclasses=False, documented={"k": 1, "reduction": np.mean})
+    tap.method(vneigh.KNeighbors, "fit", post=post_fit, documented={"weights": None})
     tap.method(vneigh.KNeighbors, "predict", post=post_predict)
-    tap.function(vdist, "median_distance", post=post_median)
-    tap.function(vmask, "distance_mask", post=post_mask, pre=pre_mask)
+    tap.function(vdist, "median_distance", post=post_median, documented={"k_nearest": 1, "projection": None})
+    tap.function(vmask, "distance_mask", post=post_mask, pre=pre_mask, documented={"coordinates": None, "grid": None, "projection": None})
 
 
 # ----------------------------------------------------------------------
@@ -1385,7 +1404,12 @@ def _knn_case(run, verde, rng):
     if poisoned and rng.random() < 0.4:
         k = n  # every point is a neighbour: the ones with non-finite extras (some on the border of the cloud) included
     reduction = REDUCTIONS[int(rng.integers(0, len(REDUCTIONS)))]
-    est = verde.KNeighbors(k=spell_int(rng, k), reduction=reduction)
+    kwargs = {"k": spell_int(rng, k), "reduction": reduction}
+    if reduction is np.mean and rng.random() < 0.6:
+        del kwargs["reduction"]  # rely on the documented default reduction=np.mean
+    if k == 1 and rng.random() < 0.6:
+        del kwargs["k"]  # rely on the documented default k=1
+    est = verde.KNeighbors(**kwargs)
     weights = weights_in if weights_in is not None else (np.ones_like(np.asarray(data_in), dtype="float64") if rng.random() < 0.15 else None)
     with warnings.catch_warnings():
         warnings.simplefilter("ignore")
@@ -1477,7 +1501,12 @@ def _median_case(run, verde, rng):
             coords = tuple(df[c] for c in df.columns)
         else:
             coords, layout = _present(rng, [east, north] + extras)
-        out = verde.median_distance(coords, k_nearest=spell_int(rng, k, zero_d=True), projection=projection)
+        kwargs = {"k_nearest": spell_int(rng, k, zero_d=True), "projection": projection}
+        if k == 1 and rng.random() < 0.6:
+            del kwargs["k_nearest"]  # rely on the documented default k_nearest=1
+        if projection is None and rng.random() < 0.5:
+            del kwargs["projection"]
+        out = verde.median_distance(coords, **kwargs)
         if poisoned:
             _twin(run, "median_distance", out, verde.median_distance(tuple(coords[:2]), k_nearest=k, projection=projection))
         if _aliased(run, coords):
@@ -1666,6 +1695,8 @@ def _masked_grid(run, verde, rng, data_coords, maxdist, dn, de, nv, ev, variable
             run.count("accepted:grid_with_extra_1d_data_variable")
         except (IndexError, ValueError):
             run.count("refused:grid_with_extra_1d_data_variable")
+    if projection is None and rng.random() < 0.5:
+        return verde.distance_mask(data_coords, spell_number(rng, maxdist), grid=grid), how  # documented default projection=None
     return verde.distance_mask(data_coords, spell_number(rng, maxdist), grid=grid, projection=projection), how
 
 
